@@ -586,8 +586,9 @@ aiff_read_header (SF_PRIVATE *psf, COMM_CHUNK *comm_fmt)
 					if (chunk_size == 0)
 						break ;
 					if (chunk_size >= SIGNED_SIZEOF (ubuf.scbuf))
-					{	psf_log_printf (psf, " %M : %d (too big)\n", marker, chunk_size) ;
-						return SFE_INTERNAL ;
+					{	psf_log_printf (psf, " %M : %d (too big, skipping)\n", marker, chunk_size) ;
+						psf_binheader_readf (psf, "j", chunk_size) ;
+						break ;
 						} ;
 
 					cptr = ubuf.cbuf ;
@@ -605,8 +606,9 @@ aiff_read_header (SF_PRIVATE *psf, COMM_CHUNK *comm_fmt)
 					if (chunk_size == 0)
 						break ;
 					if (chunk_size >= SIGNED_SIZEOF (ubuf.scbuf) - 1)
-					{	psf_log_printf (psf, " %M : %d (too big)\n", marker, chunk_size) ;
-						return SFE_INTERNAL ;
+					{	psf_log_printf (psf, " %M : %d (too big, skipping)\n", marker, chunk_size) ;
+						psf_binheader_readf (psf, "j", chunk_size) ;
+						break ;
 						} ;
 
 					cptr = ubuf.cbuf ;
@@ -684,8 +686,9 @@ aiff_read_header (SF_PRIVATE *psf, COMM_CHUNK *comm_fmt)
 					if (chunk_size == 0)
 						break ;
 					if (chunk_size >= SIGNED_SIZEOF (ubuf.scbuf) - 2)
-					{	psf_log_printf (psf, " %M : %d (too big)\n", marker, chunk_size) ;
-						return SFE_INTERNAL ;
+					{	psf_log_printf (psf, " %M : %d (too big, skipping)\n", marker, chunk_size) ;
+						psf_binheader_readf (psf, "j", chunk_size) ;
+						break ;
 						} ;
 
 					cptr = ubuf.cbuf ;
@@ -700,8 +703,9 @@ aiff_read_header (SF_PRIVATE *psf, COMM_CHUNK *comm_fmt)
 					if (chunk_size == 0)
 						break ;
 					if (chunk_size >= SIGNED_SIZEOF (ubuf.scbuf) - 2)
-					{	psf_log_printf (psf, " %M : %d (too big)\n", marker, chunk_size) ;
-						return SFE_INTERNAL ;
+					{	psf_log_printf (psf, " %M : %d (too big, skipping)\n", marker, chunk_size) ;
+						psf_binheader_readf (psf, "j", chunk_size) ;
+						break ;
 						} ;
 
 					cptr = ubuf.cbuf ;
